@@ -576,3 +576,66 @@ def _args_deep(call):
             a0 = a0.c[0].strip_all()
             out.append(a0)
     return out
+
+
+# =================================================================================================
+# P4 NON-REENTRANT-CALLEE: no library function reaches a C library routine that keeps hidden process-wide state  (C09)
+NON_REENTRANT = {
+    "lgamma": "writes the global signgam", "lgammaf": "writes the global signgam", "lgammal": "writes the global signgam",
+    "gamma": "writes the global signgam", "gammaf": "writes the global signgam",
+    "__builtin_lgamma": "writes the global signgam", "__builtin_lgammaf": "writes the global signgam", "__builtin_lgammal": "writes the global signgam",
+    "strtok": "keeps its position in a static", "asctime": "returns a static buffer", "ctime": "returns a static buffer",
+    "gmtime": "returns a static struct", "localtime": "returns a static struct", "strerror": "may return a static buffer",
+    "tmpnam": "static buffer", "setlocale": "changes the process-wide locale", "rand": "hidden generator state",
+    "srand": "hidden generator state", "random": "hidden generator state", "srandom": "hidden generator state",
+    "drand48": "hidden generator state", "lrand48": "hidden generator state", "mrand48": "hidden generator state", "srand48": "hidden generator state",
+    "readdir": "static dirent", "getpwnam": "static struct", "getpwuid": "static struct", "ecvt": "static buffer", "fcvt": "static buffer",
+}
+
+
+def rule_P4(prog, fixture=False):
+    res = RuleResult("P4", "no function of the library reaches - directly or through standard-library code instantiated in the "
+                           "library (std::cyl_bessel_i -> lgamma) - a C library routine with hidden process-wide state: two threads "
+                           "inside such a routine race although they share no object of the library")
+    n_funcs = 0
+    hits = 0
+    for f in sorted(prog.functions.values(), key=lambda f: (f.file, f.line, f.name)):
+        if f.file.endswith("coverage.cc") or f.get("implicit"):
+            continue
+        n_funcs += 1
+        # walk external code only: a repository callee is its own obligation
+        seen, work, found = set(), [], None
+        for c in f.get("calls", []):
+            u = c["usr"]
+            if u not in prog.functions:
+                work.append((u, [u], c.get("l")))
+        while work and found is None:
+            u, path, line = work.pop()
+            if u in seen:
+                continue
+            seen.add(u)
+            m = re.match(r"c:@F@([A-Za-z_0-9]+)$", u)
+            if m and m.group(1) in NON_REENTRANT:
+                found = (m.group(1), path, line)
+                break
+            e = prog.ext_edges.get(u)
+            if e is None or len(seen) > 4000:
+                continue
+            for c2 in e["c"]:
+                if c2 not in prog.functions and c2 not in seen:
+                    work.append((c2, path + [c2], line))
+        if found is not None:
+            hits += 1
+            name, path, line = found
+            nice = []
+            for u in path[:6]:
+                m = re.search(r"@F@([A-Za-z_0-9]+)", u)
+                nice.append(m.group(1) if m else u[:30])
+            res.add("P4:%s:%s" % (fkey(f), name), VIOLATED, "%s:%d" % (prog.rel(f.file), line or f.line), "%s reaches %s" % (f.short, name),
+                    "%s %s (via %s): concurrent calls from two threads race on that state, whatever objects they use" % (
+                        name, NON_REENTRANT[name], " -> ".join(nice)), func=f.name, extra={"props": ["C09"]})
+    res.add("P4:library", DISCHARGED if not hits else VIOLATED, "-", "all %d library functions" % n_funcs,
+            "no function reaches one of the %d tabulated non-reentrant C routines through external code" % len(NON_REENTRANT) if not hits
+            else "%d function(s) reach a non-reentrant C routine" % hits, extra={"props": ["C09"]})
+    res.stats["functions"] = n_funcs
+    return res
